@@ -103,6 +103,21 @@ CHECKS = {
                 "history; distinct = distinct scenario hashes among those",
         "assumptions": TRUST + ["undecodable events are those the decoder reports as errors (binlog v3 FDE, query db-length overrun, short ROTATE, unknown column type, unknown checksum algorithm, unannounced table id)"],
     },
+    "C05": {
+        "test": "TestC05", "level": "fault_enumeration", "checks": (45, 2500), "timeout": (900, 7200), "race": True, "race_shards": [12, 13, 14, 15],
+        "rule": "rapid-generated scenarios: small history (3..10 packets) x stop cause in {master EOF, cancel at packet i, cancel while the handler is gated, cancel from inside "
+                "the handler, deadline, EOF / ERR packet, socket close, reset, short packet, out-of-sequence packet, handler error, mapper error, column mismatch, unsupported / "
+                "invalid / undecodable event, connect refused, ERR at handshake, ERR to the checksum query, cancel during the handshake} x stop point x pacing {lock-step: reader "
+                "waits for the network; far ahead: reader holds an event} x handler {fast, slow, gated until the requested reader state was OBSERVED via runtime.Stack} x "
+                "{fresh streamer, streamer whose previous attempt succeeded}; 4 of 16 shards run under the race detector. Oracle: Stream returns (else a blocked-state proof: two "
+                "probes 300 ms apart show it parked with no runnable library goroutine), the replica closes the connection, no goroutine created by gobinlog or the driver "
+                "remains, the handler is never entered twice at once nor after Stream returned, three consecutive Error() calls return, and the race log is empty. "
+                "A deterministic scenario per listed known finding runs first. Non-trivial = the requested reader state was observed at the stop (connect-phase causes: always); "
+                "distinct = distinct scenario hashes among those",
+        "assumptions": TRUST + ["goroutines are attributed to the library by the package path of their creator function (runtime.Stack)",
+                                "a wall-clock bound alone never yields a violation: only a goroutine parked in the same blocked state in two probes does; otherwise the run is inconclusive (exit 2)",
+                                "the race detector only sees races on executed paths"],
+    },
 }
 
 NOT_APPLICABLE = {}
